@@ -115,7 +115,10 @@ Dense_Row::Dense_Row(const Dense_Row& y,
 
   impl.capacity = capacity;
   impl.coeff_allocator = y.impl.coeff_allocator;
-  impl.vec = impl.coeff_allocator.allocate(impl.capacity);
+  // A row with no capacity has no vector (see OK()).
+  if (impl.capacity != 0) {
+    impl.vec = impl.coeff_allocator.allocate(impl.capacity);
+  }
 
   if (y.impl.vec != nullptr) {
     while (impl.size != y.size()) {
